@@ -61,14 +61,43 @@ Theorem C02_inputs_bytes_frame_bytes : forall bs m sess t raw frame sess',
 Proof. exact encode_bytes. Qed.
 Print Assumptions C02_inputs_bytes_frame_bytes.
 
-(* the forced hypothesis on MsgType is necessary: an empty MsgType is encoded and transmitted
-   as "35=<SOH>" (known finding, class "MsgType empty or starting with SOH") *)
-Theorem C02_empty_msgtype_refuted : exists m frame sess' w,
+(* Domain condition, not a finding: the empty string is not a message type.  The hypothesis on
+   MsgType cannot be dropped: an empty MsgType is encoded and written as "35=<SOH>". *)
+Theorem C02_msgtype_hypothesis_necessary : exists m frame sess' w,
   inputs_bytes FIX44 m ex_sess ex_time = true
   /\ encode FIX44 m ex_sess ex_time false = Ok (frame, sess')
   /\ wire frame = Some w /\ well_framedb w = false.
 Proof. exact empty_msgtype_refuted. Qed.
-Print Assumptions C02_empty_msgtype_refuted.
+Print Assumptions C02_msgtype_hypothesis_necessary.
+
+(* With field structure (what a SOH-splitting FIX parser needs; the harness oracle
+   codec_common.well_framed is the Python twin of well_framed_fieldsb): on the domain of C01/C02 -
+   tags non-empty, SOH-free, not starting with "="; values, CompIDs, time, MsgType SOH-free -
+   every piece of the frame is tag=value with a non-empty tag as well. *)
+Theorem C02_encode_well_framed_fields : forall bs m sess t raw frame sess',
+  encode bs m sess t raw = Ok (frame, sess') ->
+  nonempty bs = true -> nonempty (msg_type m) = true ->
+  inputs_bytes bs m sess t = true -> inputs_fields_ok bs m sess t = true ->
+  exists w, wire frame = Some w /\ well_framed_fieldsb w = true.
+Proof. exact encode_well_framed_fields. Qed.
+Print Assumptions C02_encode_well_framed_fields.
+
+(* outside that domain (SOH inside a value) the frame-level grammar still holds, the field
+   structure does not *)
+Theorem C02_soh_in_value_breaks_fields : exists frame sess',
+  encode FIX44 ex_soh_value ex_sess ex_time false = Ok (frame, sess')
+  /\ inputs_bytes FIX44 ex_soh_value ex_sess ex_time = true
+  /\ inputs_fields_ok FIX44 ex_soh_value ex_sess ex_time = false
+  /\ well_framedb frame = true /\ well_framed_fieldsb frame = false.
+Proof. exact soh_in_value_breaks_fields. Qed.
+Print Assumptions C02_soh_in_value_breaks_fields.
+
+Theorem C02_fields_nonvacuous :
+  inputs_fields_ok FIX44 ex_nested ex_sess ex_time = true
+  /\ exists frame sess', encode FIX44 ex_nested ex_sess ex_time false = Ok (frame, sess')
+       /\ well_framed_fieldsb frame = true.
+Proof. exact ex_nested_fields. Qed.
+Print Assumptions C02_fields_nonvacuous.
 
 (* non-vacuity: a three-level nested group message with a latin-1 value meets every hypothesis *)
 Theorem C02_nonvacuous :
